@@ -29,7 +29,8 @@ META = {
              "non-trivial = >= 2 scales and a partial border chunk; distinct "
              "by the full info."
              ' Also: counts given as Python int, NumPy integers and (when '
-             'exact) floats.'),
+             'exact) floats.'
+             " Round 12: many-channel infos, NumPy-typed channel counts."),
     "exhaustive_parts": ["fmt_sweep: 0..2^22 (quick) / 0..2^26 (thorough) and "
                          "+-4096 windows around c*1024^k"],
     "trusted_base": ["Python int / Fraction arithmetic", "regex parser of the "
@@ -200,8 +201,11 @@ def info_strategy(max_size=10 ** 6):
             st.booleans(), st.integers(0, 12))
     scales = st.integers(1, 4).flatmap(
         lambda n: st.tuples(*[scale(i) for i in range(n)]).map(list))
+    # (channel counts: the usual 1..4, and many-channel volumes)
     return st.builds(build, st.sampled_from(sorted(ITEMSIZE)),
-                     st.integers(1, 4), scales)
+                     st.one_of(st.integers(1, 4), st.integers(1, 4),
+                               st.sampled_from([31, 32, 40, 64, 128, 255, 256,
+                                                4096, 5000])), scales)
 
 
 def numpy_sizes(info):
@@ -223,6 +227,11 @@ def numpy_sizes(info):
         # (the sizes only: chunk sizes are echoed in the report, and NumPy
         # scalars inside a printed list are spelled "np.int16(64)")
         sc["size"] = [conv(v) for v in sc["size"]]
+    # the channel count as well (e.g. dim[4] of an image header)
+    ctypes_ = ["uint8", "int16", "int32", "int64"] if rep == 1 else \
+        ["int16", "int32", "int64"] if rep == 2 else ["int64"]
+    t = next(t for t in ctypes_ if out["num_channels"] <= np.iinfo(t).max)
+    out["num_channels"] = np.dtype(t).type(out["num_channels"])
     return out, "numpy_sizes"
 
 
